@@ -725,6 +725,46 @@ func ruleNormReader(c *Ctx) {
 			}
 		}
 	}
+	// the reader itself must not be asked for raw views of the bytes: a method (or helper) that is handed the reader and
+	// returns a byte slice or a string hands back unmapped source bytes, and so does the reader's source field
+	eachInstr(fn, func(in ssa.Instruction) {
+		switch x := in.(type) {
+		case *ssa.Call:
+			g := x.Call.StaticCallee()
+			if g == nil || !p.InModule(g) {
+				return
+			}
+			takesReader := false
+			for _, a := range x.Call.Args {
+				if typeName(deref(a.Type())) == "inlineByteReader" {
+					takesReader = true
+				}
+			}
+			if !takesReader {
+				return
+			}
+			res := g.Signature.Results()
+			for i := 0; i < res.Len(); i++ {
+				switch t := res.At(i).Type().Underlying().(type) {
+				case *types.Slice:
+					if b, ok := t.Elem().Underlying().(*types.Basic); ok && b.Kind() == types.Uint8 {
+						bad = append(bad, "raw bytes obtained from the reader through "+g.Name())
+						pos = x.Pos()
+					}
+				case *types.Basic:
+					if t.Info()&types.IsString != 0 {
+						bad = append(bad, "raw text obtained from the reader through "+g.Name())
+						pos = x.Pos()
+					}
+				}
+			}
+		case *ssa.FieldAddr:
+			if tn, f, _ := fieldAddrInfo(x); tn == "inlineByteReader" && f == "source" {
+				bad = append(bad, "the reader's source field is read directly")
+				pos = x.Pos()
+			}
+		}
+	})
 	if !pos.IsValid() {
 		pos = fn.Pos()
 	}
